@@ -1,3 +1,4 @@
 import DriverLib.Json
 import DriverLib.Tensors
 import DriverLib.Ops
+import DriverLib.Graph
